@@ -1,7 +1,12 @@
 import Qryn.Proofs.InternalEngines
 import Qryn.Proofs.InternalOpt
 import Qryn.Proofs.InternalJsonPath
+import Qryn.Proofs.InternalParams
+import Qryn.Proofs.InternalCompose
+import Qryn.Read.JsonPathSyntax
 import Qryn.Gen.InternalPlanner
+import Qryn.Gen.InternalParams
+import Qryn.Gen.PlannerGlobals
 /-! # C09 — a LogQL result does not depend on which engine ran each pipeline stage
 
 Model: `Read.*` (Qryn/Read/Internal.lean) — every stage of reader/logql/logql_transpiler_v2/internal_planner as a
@@ -141,24 +146,70 @@ theorem stage_meets_logql_lineFilter (E : Env V) (op : LineOp) (val : Bytes) (es
 theorem stage_meets_logql_labelFilter (E : Env V) (h0 : E.o.isNum [] = false) (c : LabelCond) (es : List (Entry V)) :
     stageFlat E (.labelFilter c) es = labelStage E c es := label_meets E h0 c es
 
-/-- `| json`, `| logfmt`, `| logfmt name="field"`: the extracted labels are those of the definition — for JSON:
-    one label per scalar outside arrays, named by the `_`-joined sanitised path, later values replacing earlier
-    ones, up to the point where the decoder fails — and the entry moves to the series of its new label set. -/
-theorem stage_meets_logql_parser (E : Env V) (k : ParserKind) (hk : k.total = true) (es : List (Entry V))
-    (hp : ∀ e ∈ es, e.err = none) : stageFlat E (.parser k) es = parserStage E k es := parser_meets E k hk es hp
+/-- **every parser stage the in-process engine runs** — `| json`, `| json n₁="p₁", …` (any number of parameters),
+    `| logfmt`, `| logfmt n₁="k₁", …` — on every line, well-formed or not: the extracted labels are those of the
+    definition and the entry moves to the series of its new label set. For `| json`: one label per scalar outside
+    arrays, named by the `_`-joined sanitised path, later values replacing earlier ones, up to the point where the
+    decoder fails. The parameterised forms are spelled out in the next two theorems. -/
+theorem stage_meets_logql_parser (E : Env V) (k : ParserKind) (es : List (Entry V))
+    (hp : ∀ e ∈ es, e.err = none) : stageFlat E (.parser k) es = parserStage E k es := parser_meets_all E k es hp
 
-/-- `| json name="path"` (one parameter), on lines the decoder reads to the end: the label is the scalar the path
-    leads to (object keys and array indexes; for a key that occurs twice the last occurrence leading to a
-    scalar), other labels untouched, and the entry moves to the series of its new label set. Several parameters
-    with different names: covered by the correspondence and the oracle only. -/
-theorem stage_meets_logql_jsonParam (E : Env V) (n : Bytes) (p : List PathSeg) (es : List (Entry V))
-    (hp : ∀ e ∈ es, e.err = none) (hb : ∀ e ∈ es, hasBad (E.jsonDecode e.msg) = false) :
-    stageFlat E (.parser (.jsonParams [(n, p)])) es = parserStage E (.jsonParams [(n, p)]) es := by
-  simp only [stageFlat, parserStage]
-  apply List.map_congr_left
-  intro e he
-  simp only [parserFn, hp e he, Option.isSome_none, Bool.false_eq_true, if_false, relabel, parseLabels, parserLabels,
-    jsonParams_single n p _ _ (hb e he)]
+/-- **`| json n₁="p₁", n₂="p₂", …`, general case**: any number of parameters, names that repeat, names of
+    existing stream labels, paths that are prefixes of each other, array indexes, keys occurring twice, documents
+    that are malformed anywhere. What `jsonPathProcessor` leaves in the label map is `jsonPathLabels`: go through
+    the scalars of the document in document order up to the point where the decoder fails; a scalar whose address
+    (keys and indexes from the root) is the path of a parameter sets that parameter's label to its value,
+    overwriting what was there (for several such parameters: in parameter order). Hence a name used by several
+    parameters ends with the value that comes last *in the document* (not in the parameter list), a parameter
+    named like a stream label replaces it, and labels no parameter reaches stay as they were. -/
+theorem stage_meets_logql_jsonParams (E : Env V) (ps : List Ahead) (es : List (Entry V))
+    (hp : ∀ e ∈ es, e.err = none) :
+    stageFlat E (.parser (.jsonParams ps)) es =
+      es.map (fun e => relabel E e (jsonPathLabels ps (E.jsonDecode e.msg) e.labels)) :=
+  parser_meets_all E (.jsonParams ps) es hp
+
+/-- **`| logfmt n₁="k₁", …`**: the map `ParserPlanner.Process` fills from the parameters (first path segment ↦
+    name, skipping empty paths and leading indexes, a later parameter overwriting an earlier one with the same
+    key) sends every logfmt key to the label of the *last* parameter whose expression starts with that key; keys
+    no parameter names are not extracted. -/
+theorem stage_meets_logql_logfmtParams (E : Env V) (ps : List Ahead) (es : List (Entry V))
+    (hp : ∀ e ∈ es, e.err = none) :
+    stageFlat E (.parser (.logfmtParams ps)) es =
+      es.map (fun e => relabel E e (logfmtParamLabels ps (E.logfmtDecode e.msg) e.labels)) :=
+  parser_meets_all E (.logfmtParams ps) es hp
+
+/-- one parameter, a document read to the end: the general definition is the reading by lookup — the label is the
+    scalar the path leads to (for a key that occurs twice the last occurrence leading to a scalar), other labels
+    untouched. -/
+theorem jsonParam_single_is_lookup (n : Bytes) (p : List PathSeg) (doc : JVal) (l : Labels) (hb : hasBad doc = false) :
+    jsonPathLabels [(n, p)] doc l = (match lookupPath doc p with | some v => l.set n v | none => l) := by
+  rw [← jsonParams_meets, jsonParams_single n p doc l hb]
+  simp only [jsonParamLabels, List.foldl_cons, List.foldl_nil]
+  cases lookupPath doc p <;> rfl
+
+/-- **parameters with pairwise different names, a document read to the end**: the general definition coincides with
+    the reading by lookup — every parameter's label is the scalar `lookupPath` finds for its path, whatever the
+    order of the parameters and of the members of the document (`jsonParamLabels` goes through the parameters in
+    order; the engine goes through the document). -/
+theorem jsonParams_distinct_is_lookup (ps : List Ahead) (hd : (ps.map (·.1)).Nodup) (doc : JVal) (hb : hasBad doc = false)
+    (l : Labels) : jsonPathLabels ps doc l = jsonParamLabels ps doc l := jsonParams_distinct_lookup ps hd doc hb l
+
+/-- the hypothesis "different names" is needed: `p="a", p="b"` on `{"b":"1","a":"2"}` gives `p=2` (the later member of
+    the document), the parameter-order reading would give `p=1` -/
+theorem jsonParams_repeated_name_document_order :
+    let doc := JVal.obj (.cons [98] (.str [49]) (.cons [97] (.str [50]) .nil))
+    let ps : List Ahead := [([112], [.key [97]]), ([112], [.key [98]])]
+    jsonParams ps doc [] = [([112], [50])] ∧ jsonPathLabels ps doc [] = [([112], [50])] ∧
+    jsonParamLabels ps doc [] = [([112], [49])] := by decide
+
+/-- which parsers the in-process engine has: `json` and `logfmt`; `regexp`, `pattern`, `unpack` are answered
+    `NotSupported` (the switch of `ParserPlanner.Process`, regenerated) -/
+theorem parser_ops_modelled :
+    Gen.InternalParams.parserOpCases = ["json", "logfmt"] ∧
+    (∀ ps, planParser .other ps = none) ∧
+    (∀ ps, planParser .json ps = some (if ps.isEmpty then .json else .jsonParams ps)) ∧
+    (∀ ps, planParser .logfmt ps = some (if ps.isEmpty then .logfmt else .logfmtParams ps)) :=
+  ⟨rfl, fun _ => rfl, fun _ => rfl, fun _ => rfl⟩
 
 theorem stage_meets_logql_labelFormat (E : Env V) (ops : List FormatOp) (es : List (Entry V))
     (hp : ∀ e ∈ es, e.err = none) : stageFlat E (.labelFormat ops) es = labelFormatStage E ops es :=
@@ -179,9 +230,6 @@ theorem stage_meets_logql_byWithout (E : Env V) (isBy : Bool) (names : List Byte
 
 theorem stage_meets_logql_comparison (N : NumOps V) (op : CmpOp) (v : V) (es : List (Entry V)) :
     es.filterMap (comparisonFn N op v) = compareStage N op v es := comparison_meets N op v es
-
-/-- the series identity the engine groups by (the fingerprint) coincides with the label set on these entries -/
-def FpFaithful (es : List (Entry V)) : Prop := ∀ a ∈ es, ∀ b ∈ es, (a.fp = b.fp ↔ a.labels = b.labels)
 
 /-- **range aggregation** (`rate`, `count_over_time`, `bytes_rate`, `bytes_over_time`): for any batching of
     proper entries whose fingerprints identify their label sets and whose series fit under the cap, the bucket
@@ -217,26 +265,24 @@ theorem stage_meets_logql_vectorAgg (N : NumOps V) (maxSeries : Nat) (g : Grid) 
     aggregate_value_congr _ g _ _ (fun l hl => vec_value N fn l hl),
     aggregate_key_congr (fun e : Entry V => e.fp) (fun e : Entry V => e.labels) g _ _ hf]
 
-/-- a pipeline of stages whose parsers are covered by `stage_meets_logql_parser` -/
-def StagesTotal (ss : List (StageK V)) : Prop := ∀ s ∈ ss, match s with | .parser k => k.total = true | _ => True
-
-theorem stages_meet_logql (E : Env V) (h0 : E.o.isNum [] = false) (ss : List (StageK V)) (ht : StagesTotal ss)
+/-- **any sequence of the modelled stages** (line filter, label filter, the four parser forms, label_format,
+    line_format, drop, unwrap) is the LogQL definition applied stage by stage — induction over the stage list -/
+theorem stages_meet_logql (E : Env V) (h0 : E.o.isNum [] = false) (ss : List (StageK V))
     (es : List (Entry V)) (hp : ∀ e ∈ es, e.err = none) :
     stagesFlat E ss es = Stages.stages E ss es ∧ ∀ e ∈ stagesFlat E ss es, e.err = none := by
   induction ss generalizing es with
   | nil => exact ⟨rfl, hp⟩
   | cons s ss ih =>
     have hs : stageFlat E s es = Stages.stage E s es := by
-      have hts := ht s List.mem_cons_self
       cases s with
       | line op val => exact line_meets E op val es hp
       | labelFilter c => exact label_meets E h0 c es
-      | parser k => exact parser_meets E k hts es hp
+      | parser k => exact parser_meets_all E k es hp
       | labelFormat ops => exact labelFormat_meets E ops es hp
       | lineFormat t => exact lineFormat_meets E t es
       | drop ns vs => exact drop_meets E ns vs es hp
       | unwrap l => exact unwrap_meets E l es hp
-    have := ih (fun x hx => ht x (List.mem_cons_of_mem _ hx)) (stageFlat E s es) (stageFlat_proper E s es hp)
+    have := ih (stageFlat E s es) (stageFlat_proper E s es hp)
     simp only [stagesFlat, Stages.stages, List.foldl_cons] at this ⊢
     rw [← hs]
     exact this
@@ -244,11 +290,148 @@ theorem stages_meet_logql (E : Env V) (h0 : E.o.isNum [] = false) (ss : List (St
 /-- **a whole log query plan is its LogQL reading**: for every batching of proper upstream entries, every series
     of the engine's output is that series of `LogQL.Stages.evalPlan` (stages in order, then the limit). -/
 theorem logPlan_meets_logql (E : Env V) (h0 : E.o.isNum [] = false) (c : Read.Ctx) (p : Plan V) (hlog : p.agg = none)
-    (ht : StagesTotal p.stages) (bs : Batches V) (hp : ∀ e ∈ bs.flatten, e.err = none) (f : UInt64) :
+    (bs : Batches V) (hp : ∀ e ∈ bs.flatten, e.err = none) (f : UInt64) :
     (runPlan E c p bs).flatten.filter (fun e => e.fp == f) =
       (evalPlan E c p bs.flatten).flatten.filter (fun e => e.fp == f) := by
-  rw [batching_invariant_logPlan E c p hlog bs f, (stages_meet_logql E h0 p.stages ht bs.flatten hp).1]
+  rw [batching_invariant_logPlan E c p hlog bs f, (stages_meet_logql E h0 p.stages bs.flatten hp).1]
   simp [evalPlan, hlog]
+
+/-- **a whole metric query plan is its LogQL reading.** For every plan `internal_planner.Plan` builds around a range
+    aggregation — any sequence of the modelled stages (line filter, label filter, `json`, `json` with parameters,
+    `logfmt`, `logfmt` with parameters, `label_format`, `line_format`, `drop`, `unwrap`), then `by/without` and the
+    range aggregation (`rate`, `count_over_time`, `bytes_rate`, `bytes_over_time`; over an unwrapped value `rate`,
+    `sum/avg/min/max/first/last_over_time`), an optional comparison, an optional vector aggregation
+    (`sum/min/max/avg/count` with `by/without`) with its optional comparison — and for **every batching** of proper
+    upstream entries, the messages the engine sends are exactly `LogQL.Stages.evalPlan` of the flat entry list: the
+    definition applied stage by stage (for a function name the engine has no case for — `stddev/stdvar_over_time` —
+    both sides are empty). Hypotheses (`MetricOk`, stated on the specification side): the series reaching each
+    aggregator fit under the cap, and fingerprints identify label sets there (`metricOk_from_noCollision` derives
+    that from the hash-collision hypothesis).
+    Proof: `stages_meet_logql` (induction over the stage list) then the per-stage theorems in plan order. -/
+theorem metricPlan_meets_logql (E : Env V) (h0 : E.o.isNum [] = false) (c : Read.Ctx) (p : Plan V)
+    (hm : p.agg.isSome = true) (bs : Batches V) (hp : ∀ e ∈ bs.flatten, e.err = none)
+    (hok : MetricOk E c p bs.flatten) :
+    runPlan E c p bs = evalPlan E c p bs.flatten := by
+  obtain ⟨⟨k, dur⟩, hk⟩ := Option.isSome_iff_exists.mp hm
+  obtain ⟨hcap, hf, hcapV, hfV⟩ := hok
+  have hst := stages_meet_logql E h0 p.stages bs.flatten hp
+  have hflat : (runStages E p.stages bs).flatten = stages E p.stages bs.flatten := by
+    rw [batching_invariant_stages]; exact hst.1
+  have hprop : ∀ e ∈ (runStages E p.stages bs).flatten, e.err = none := by
+    rw [batching_invariant_stages]; exact hst.2
+  have hsp : ∀ e ∈ stages E p.stages bs.flatten, e.err = none := by
+    rw [← hst.1]; exact hst.2
+  -- the range aggregation
+  have hrange : (match k with
+      | .range fn => run E.num (aggOps E.num c.maxSeries (Grid.of c.fromNs c.toNs dur) (lraFn E.num dur fn)) [] (runStages E p.stages bs)
+      | .unwrap fn => run E.num (aggOps E.num c.maxSeries (Grid.of c.fromNs c.toNs dur) (unwrapAggFn E.num dur fn)) []
+          (runByWithout E p.aggBy (runStages E p.stages bs))) =
+      (match k with
+      | .range fn => if rangeCounts fn then aggregate (·.labels) (Grid.of c.fromNs c.toNs dur) (rangeValue E.num dur fn) (stages E p.stages bs.flatten) else []
+      | .unwrap fn => if unwrapCounts fn then aggregate (·.labels) (Grid.of c.fromNs c.toNs dur) (unwrapValue E.num dur fn)
+          (optByWithout E p.aggBy (stages E p.stages bs.flatten)) else []) := by
+    cases k with
+    | range fn =>
+      simp only [aggInput, hk] at hcap hf
+      by_cases hfn : rangeCounts fn = true
+      · simp only [hfn, if_true]
+        rw [stage_meets_logql_rangeAgg E.num c.maxSeries _ dur fn hfn _ hprop (by rw [hflat]; exact hcap) (by rw [hflat]; exact hf), hflat]
+      · -- a name `LRAPlanner.addValue` has no case for: nothing is counted, nothing is emitted
+        have hfo : fn = .other := by cases fn <;> simp [rangeCounts] at hfn ⊢
+        subst hfo
+        simp only [rangeCounts, Bool.false_eq_true, if_false]
+        exact run_aggOps_idle E.num c.maxSeries _ _ (fun _ _ => rfl) _ hprop (by rw [hflat]; exact hcap)
+    | unwrap fn =>
+      simp only [aggInput, hk] at hcap hf
+      have hbw := runByWithout_flatten E p.aggBy _ hprop
+      rw [hflat] at hbw
+      have hprop' : ∀ e ∈ (runByWithout E p.aggBy (runStages E p.stages bs)).flatten, e.err = none := by
+        rw [hbw]
+        intro e he
+        cases hb : p.aggBy with
+        | none => rw [hb] at he; exact hsp e he
+        | some bw =>
+          rw [hb] at he
+          simp only [optByWithout, byWithoutStage, List.mem_map] at he
+          obtain ⟨x, hx, rfl⟩ := he
+          exact hsp x hx
+      by_cases hfn : unwrapCounts fn = true
+      · simp only [hfn, if_true]
+        rw [stage_meets_logql_unwrapAgg E.num c.maxSeries _ dur fn hfn _ hprop' (by rw [hbw]; exact hcap) (by rw [hbw]; exact hf), hbw]
+      · have hfo : fn = .other := by cases fn <;> simp [unwrapCounts] at hfn ⊢
+        subst hfo
+        simp only [unwrapCounts, Bool.false_eq_true, if_false]
+        exact run_aggOps_idle E.num c.maxSeries _ _ (fun _ _ => rfl) _ hprop' (by rw [hbw]; exact hcap)
+  cases hv : p.vec with
+  | none =>
+    simp only [runPlan, evalPlan, hk, hv, runCmp_eq]
+    cases k <;> simp only [] at hrange ⊢ <;> rw [hrange]
+  | some fbc =>
+    obtain ⟨fn, bw, cmp⟩ := fbc
+    -- the stream reaching the vector aggregation, on the specification side
+    have hin : vecInput E c p bs.flatten = optByWithout E bw (rangeResult E c p bs.flatten).flatten := by
+      simp only [vecInput, hv]
+    rw [hin] at hcapV hfV
+    have hres : ∀ e ∈ (rangeResult E c p bs.flatten).flatten, e.err = none :=
+      fun e he => (rangeResult_mem E c p bs.flatten hm e he).1
+    have hbw := runByWithout_flatten E bw (rangeResult E c p bs.flatten) hres
+    have hprop' : ∀ e ∈ (runByWithout E bw (rangeResult E c p bs.flatten)).flatten, e.err = none := by
+      rw [hbw]
+      intro e he
+      cases bw with
+      | none => exact hres e he
+      | some b =>
+        simp only [optByWithout, byWithoutStage, List.mem_map] at he
+        obtain ⟨x, hx, rfl⟩ := he
+        exact hres x hx
+    have hvec := stage_meets_logql_vectorAgg E.num c.maxSeries (Grid.of c.fromNs c.toNs dur) fn
+      (runByWithout E bw (rangeResult E c p bs.flatten)) hprop' (by rw [hbw]; exact hcapV) (by rw [hbw]; exact hfV)
+    rw [hbw] at hvec
+    have hrr : rangeResult E c p bs.flatten = optCompare E.num p.aggCmp (match k with
+      | .range fn => if rangeCounts fn then aggregate (·.labels) (Grid.of c.fromNs c.toNs dur) (rangeValue E.num dur fn) (stages E p.stages bs.flatten) else []
+      | .unwrap fn => if unwrapCounts fn then aggregate (·.labels) (Grid.of c.fromNs c.toNs dur) (unwrapValue E.num dur fn)
+          (optByWithout E p.aggBy (stages E p.stages bs.flatten)) else []) := by
+      simp only [rangeResult, evalPlan, hk]
+      cases k <;> rfl
+    simp only [runPlan, evalPlan, hk, hv, runCmp_eq]
+    cases k <;> simp only [] at hrange hrr ⊢ <;> rw [hrange, ← hrr, hvec]
+
+/-- **ONE composition theorem: every plan `internal_planner.Plan` can build is its LogQL reading, whatever the
+    batching.** Stages in the list: line filter, label filter, `json`, `json` with any parameters, `logfmt`, `logfmt`
+    with parameters, `label_format`, `line_format`, `drop`, `unwrap`; then either limit + response optimizer (log
+    query) or by/without → range aggregation → comparison → by/without → vector aggregation → comparison (metric
+    query; each part optional as in the plan). For every batching `bs` of proper upstream entries, every series of
+    what the engine sends is that series of `evalPlan` on the flat list. (For metric plans the messages themselves
+    are equal: `metricPlan_meets_logql`; for log plans the response optimizer regroups entries by series, so only
+    the order across series is left open.) Not in the list: `absent_over_time`, `topk`, `quantile_over_time`,
+    `stddev/stdvar` (the engine answers NotSupported or never counts), the matrix post-processors. -/
+theorem plan_meets_logql (E : Env V) (h0 : E.o.isNum [] = false) (c : Read.Ctx) (p : Plan V) (bs : Batches V)
+    (hp : ∀ e ∈ bs.flatten, e.err = none) (hok : p.agg.isSome = true → MetricOk E c p bs.flatten) (f : UInt64) :
+    (runPlan E c p bs).flatten.filter (fun e => e.fp == f) =
+      (evalPlan E c p bs.flatten).flatten.filter (fun e => e.fp == f) := by
+  cases hagg : p.agg with
+  | none => exact logPlan_meets_logql E h0 c p hagg bs hp f
+  | some kd =>
+    have hm : p.agg.isSome = true := by rw [hagg]; rfl
+    rw [metricPlan_meets_logql E h0 c p hm bs hp (hok hm)]
+
+/-- the result of a plan does not depend on how the upstream cut the entries into messages: two batchings of the
+    same entries give, series by series, the same output (corollary of `plan_meets_logql`) -/
+theorem plan_batching_independent (E : Env V) (h0 : E.o.isNum [] = false) (c : Read.Ctx) (p : Plan V) (bs bs' : Batches V)
+    (hflat : bs.flatten = bs'.flatten) (hp : ∀ e ∈ bs.flatten, e.err = none)
+    (hok : p.agg.isSome = true → MetricOk E c p bs.flatten) (f : UInt64) :
+    (runPlan E c p bs).flatten.filter (fun e => e.fp == f) = (runPlan E c p bs').flatten.filter (fun e => e.fp == f) := by
+  rw [plan_meets_logql E h0 c p bs hp hok f, plan_meets_logql E h0 c p bs' (hflat ▸ hp) (hflat ▸ hok) f, hflat]
+
+/-- the hash-collision hypothesis instead of `FpFaithful`: for a plan whose in-process stages contain one that
+    rewrites labels (true of every split at `json`/`logfmt`), `MetricOk` follows from: series under the cap, and no two different label sets reaching an aggregator have the same fingerprint -/
+theorem metricOk_from_noCollision (E : Env V) (c : Read.Ctx) (p : Plan V) (es : List (Entry V)) (hm : p.agg.isSome = true)
+    (hr : ∃ s ∈ p.stages, s.relabels = true)
+    (hcap : (firstBy (fun e : Entry V => e.fp) (aggInput E p es)).length ≤ c.maxSeries)
+    (hcapVec : (firstBy (fun e : Entry V => e.fp) (vecInput E c p es)).length ≤ c.maxSeries)
+    (hnc : NoCollision E ((aggInput E p es).map (·.labels)))
+    (hncVec : NoCollision E ((vecInput E c p es).map (·.labels))) : MetricOk E c p es :=
+  metricOk_of_noCollision E c p es hm hr hcap hcapVec hnc hncVec
 
 /-! ## 3. the two engines agree on the stages both implement, at every split point -/
 
@@ -321,6 +504,159 @@ theorem split_sound (tags : List StageTag) :
     have := List.getElem?_eq_getElem hk
     rw [this] at h2
     exact Option.some.inj h2
+
+/-! ### the split with its meaning: ClickHouse prefix, then in-process suffix = the whole pipeline -/
+
+theorem stages_append (E : Env V) (a b : List (StageK V)) (es : List (Entry V)) :
+    Stages.stages E (a ++ b) es = Stages.stages E b (Stages.stages E a es) := by
+  simp only [Stages.stages, List.foldl_append]
+
+theorem stages_proper (E : Env V) (h0 : E.o.isNum [] = false) (ss : List (StageK V)) (es : List (Entry V))
+    (hp : ∀ e ∈ es, e.err = none) : ∀ e ∈ Stages.stages E ss es, e.err = none := by
+  have := stages_meet_logql E h0 ss es hp
+  rw [← this.1]; exact this.2
+
+/-- **what the split function produces** (`GetBreakpoint` + `breakScript` on a pipeline of modelled stages): either
+    nothing is split and no stage is one ClickHouse cannot run, or the pipeline is cut into `ch ++ internal` where no
+    stage of `ch` breaks and `internal` starts with the first breaking stage (`json` without parameters, `logfmt`
+    with or without parameters, `line_format`) -/
+theorem split_shape (ss : List (StageK V)) :
+    match splitPipeline ss with
+    | (ch, some internal) => ch ++ internal = ss ∧ (∀ s ∈ ch, s.tag.breaks = false) ∧
+        ∃ s rest, internal = s :: rest ∧ s.tag.breaks = true
+    | (ch, none) => ch = ss ∧ ∀ s ∈ ss, s.tag.breaks = false := by
+  simp only [splitPipeline, getBreakpoint, Bool.false_and, Bool.false_eq_true, if_false]
+  rcases breakIndex_spec (ss.map StageK.tag) 0 with ⟨h1, h2⟩ | ⟨k, t, hk, h1, h2, h3, h4⟩
+  · simp only [h1, show ((-1 : Int) < 0) from by decide, if_true, true_and]
+    intro s hs
+    exact h2 s.tag (List.mem_map_of_mem hs)
+  · simp only [Nat.zero_add] at h1
+    have hge : ¬ ((k : Int) < 0) := by omega
+    have hk' : k < ss.length := by simpa using hk
+    simp only [h1, hge, if_false, Int.toNat_natCast, List.take_append_drop, true_and]
+    refine ⟨?_, ss[k], ss.drop (k + 1), List.drop_eq_getElem_cons hk', ?_⟩
+    · intro s hs
+      apply h4 s.tag
+      rw [← List.map_take]
+      exact List.mem_map_of_mem hs
+    · have : (ss.map StageK.tag)[k]? = some (ss[k].tag) := by
+        rw [List.getElem?_map, List.getElem?_eq_getElem hk']; rfl
+      rw [this] at h2
+      rw [Option.some.inj h2]; exact h3
+
+/-- **split_sound, with its meaning.** Take any pipeline `ss` of modelled stages over the entries `base` the stream
+    selector yields, and any split `(ch, internal)` the split function produces. Let ClickHouse return what the
+    LogQL definition says for the prefix `ch` (the specification side of C07/C08), cut into messages in any way.
+    Then the in-process stages `internal` applied to those messages give the LogQL definition of the **whole**
+    pipeline `ss`. -/
+theorem split_sound_pipeline (E : Env V) (h0 : E.o.isNum [] = false) (ss ch internal : List (StageK V))
+    (hsplit : splitPipeline ss = (ch, some internal)) (base : List (Entry V)) (hp : ∀ e ∈ base, e.err = none)
+    (bs : Batches V) (hbs : bs.flatten = Stages.stages E ch base) :
+    (runStages E internal bs).flatten = Stages.stages E ss base := by
+  have hcat : ch ++ internal = ss := by
+    have := split_shape ss
+    rw [hsplit] at this
+    exact this.1
+  have hpb : ∀ e ∈ bs.flatten, e.err = none := by rw [hbs]; exact stages_proper E h0 ch base hp
+  rw [batching_invariant_stages, (stages_meet_logql E h0 internal bs.flatten hpb).1, hbs, ← stages_append, hcat]
+
+/-- **split_sound for whole plans**: the in-process plan over the ClickHouse result of the prefix is, series by
+    series, the LogQL reading of the *unsplit* query (all stages, then the aggregations / the limit) over `base` -/
+theorem split_sound_plan (E : Env V) (h0 : E.o.isNum [] = false) (c : Read.Ctx) (p : Plan V) (ch internal : List (StageK V))
+    (hsplit : splitPipeline p.stages = (ch, some internal)) (base : List (Entry V)) (hp : ∀ e ∈ base, e.err = none)
+    (bs : Batches V) (hbs : bs.flatten = Stages.stages E ch base)
+    (hok : p.agg.isSome = true → MetricOk E c { p with stages := internal } bs.flatten) (f : UInt64) :
+    (runPlan E c { p with stages := internal } bs).flatten.filter (fun e => e.fp == f) =
+      (evalPlan E c p base).flatten.filter (fun e => e.fp == f) := by
+  have hcat : ch ++ internal = p.stages := by
+    have := split_shape p.stages
+    rw [hsplit] at this
+    exact this.1
+  have hpb : ∀ e ∈ bs.flatten, e.err = none := by rw [hbs]; exact stages_proper E h0 ch base hp
+  rw [plan_meets_logql E h0 c { p with stages := internal } bs hpb hok f]
+  have : evalPlan E c { p with stages := internal } bs.flatten = evalPlan E c p base := by
+    simp only [evalPlan, hbs, ← stages_append, hcat]
+  rw [this]
+
+/-- a modelled stage as a stage of `LogQL.Sem` (the fragment C07 proves the SQL against): line and label filters -/
+def semStage? : StageK V → Option LogQL.Stage
+  | .line op val => some (.line ⟨op, val, none⟩)
+  | .labelFilter lc => some (.label lc)
+  | _ => none
+
+/-- the ClickHouse side of the split for the fragment C07 covers: a prefix of line and label filters (the reading
+    without the LIKE shortcut) applied to what the selector yields is what ClickHouse returns for the query extended
+    by those filters (`LogQL.Sem`, under `SeriesTableOk`) — so in `split_sound_pipeline` the hypothesis `hbs` is
+    "the messages are the ClickHouse result of the prefix query" -/
+theorem prefix_is_clickhouse_query (E : Env V) (c : LogQL.Ctx) (d : LokiDb) (hd : SeriesTableOk c d)
+    (ch : List (StageK V)) (sem : List LogQL.Stage) (hsem : ch.mapM semStage? = some sem) (q : LogQuery) :
+    Stages.stages E ch (upstream E.num E.o c d q) = upstream E.num E.o c d (sem.foldl withStage q) := by
+  induction ch generalizing q sem with
+  | nil =>
+    simp only [List.mapM_nil, Option.pure_def, Option.some.injEq] at hsem
+    subst hsem; rfl
+  | cons s rest ih =>
+    simp only [List.mapM_cons, Option.pure_def, Option.bind_eq_bind] at hsem
+    cases hs : semStage? s with
+    | none => simp [hs] at hsem
+    | some st =>
+      cases hr : rest.mapM semStage? with
+      | none => simp [hs, hr] at hsem
+      | some sem' =>
+        simp only [hs, hr, Option.bind_some, Option.some.injEq] at hsem
+        subst hsem
+        simp only [Stages.stages, List.foldl_cons]
+        have hstep : Stages.stage E s (upstream E.num E.o c d q) = upstream E.num E.o c d (withStage q st) := by
+          cases s with
+          | line op val =>
+            simp only [semStage?, Option.some.injEq] at hs; subst hs
+            simp only [Stages.stage, lineStage]
+            exact upstream_line E.num E.o c d q ⟨op, val, none⟩
+          | labelFilter lc =>
+            simp only [semStage?, Option.some.injEq] at hs; subst hs
+            simp only [Stages.stage, labelStage]
+            exact upstream_label E.num E.o c d hd q lc
+          | parser k => simp [semStage?] at hs
+          | labelFormat ops => simp [semStage?] at hs
+          | lineFormat t => simp [semStage?] at hs
+          | drop ns vs => simp [semStage?] at hs
+          | unwrap l => simp [semStage?] at hs
+        rw [hstep]
+        exact ih sem' hr (withStage q st)
+
+/-- **why the split needs a freshly parsed script.** `breakScript` cuts the pipeline of the script object it is given
+    (`splitSlices`, `splitMutations`); after `Plan` that object holds only `internal`. Splitting it again — which is
+    what planning the same object a second time would do — sends *nothing* of the original prefix to ClickHouse:
+    the filters in `ch` would silently disappear from the query. -/
+theorem resplit_loses_prefix (ss ch internal : List (StageK V)) (hsplit : splitPipeline ss = (ch, some internal)) :
+    splitPipeline internal = ([], some internal) := by
+  have hsh := split_shape ss
+  rw [hsplit] at hsh
+  obtain ⟨_, _, s, rest, hint, hbr⟩ := hsh
+  subst hint
+  simp [splitPipeline, getBreakpoint, breakIndex, hbr]
+
+/-- the assumption under which that cannot happen, as the source has it now: the only caller of `Plan` is
+    `Transpile`, which parses the query text and plans the fresh script once; `logql_parser.Parse` builds a parser
+    and parses, it keeps nothing; the package-level variables of `logql_parser` are the two lexer definitions (no
+    cache of parsed scripts); `Plan` calls `GetBreakpoint`, then `breakScript` once, and plans the two halves. -/
+theorem split_assumption_fresh_script :
+    Gen.InternalParams.splitSlices = ["_script.Pipelines[:breakpoint]", "_script.Pipelines[breakpoint:]"] ∧
+    Gen.InternalParams.splitMutations = ["_script.Pipelines = _script.Pipelines[breakpoint:]",
+      "_script.StrSel = logql_parser.StrSelector{}"] ∧
+    Gen.InternalParams.planCalls = ["GetBreakpoint(script)", "clickhouse_planner.Plan(script, true)",
+      "breakScript(breakpoint, script, script)", "clickhouse_planner.Plan(chScript, false)",
+      "internal_planner.Plan(internalScript, proc)"] ∧
+    Gen.InternalParams.planCallers = ["transpiler.go:Transpile"] ∧
+    Gen.InternalParams.planCallersOutside = [] ∧
+    Gen.InternalParams.transpileBody = ["oScript, err := logql_parser.Parse(script)", "if err != nil { return nil, err }",
+      "return Plan(oScript)"] ∧
+    Gen.InternalParams.parseBody = ["parser, err := participle.Build[LogQLScript](participle.Lexer(LogQLLexerDefinition), participle.UseLookahead(2))",
+      "if err != nil { return nil, err }", "res, err := parser.ParseString(\"\", str+\" \")", "return res, err"] ∧
+    Gen.plannerGlobals.filter (fun g => g.startsWith "reader/logql/logql_parser.") =
+      ["reader/logql/logql_parser.LogQLLexerDefinition", "reader/logql/logql_parser.LogQLLexerRulesV2"] := by
+  refine ⟨rfl, rfl, rfl, rfl, rfl, rfl, rfl, ?_⟩
+  decide +kernel
 
 /-! ## 4. series identity -/
 
@@ -399,6 +735,38 @@ theorem gen_facts :
       "ppl.LineFormat != nil", "ppl.LabelFormat != nil"] :=
   ⟨rfl, rfl, rfl, rfl, rfl, rfl, rfl, rfl, rfl, rfl, rfl, rfl, rfl, rfl⟩
 
+/-- the parameter handling of the parser stage as the source has it now — what `paramFields`, `jsonParams`,
+    `aheadsFor`, `setAll`, `logfmtFields`, `parserFn` mirror: `logfmtFields` is filled only when there are parameters,
+    for every parameter in order, skipping empty paths, only for a leading *string* segment, by map assignment
+    (later wins); `jsonWithParams` makes one ahead per parameter in parameter order; `filterAhead` drops aheads whose
+    path is exhausted and compares the first segment by type and value; a scalar is given to the aheads whose path
+    is exhausted; members nobody asks for are skipped; paths are cut by one segment on the way down; `HandleLogfmt`
+    consults the map when it is non-nil and ignores unnamed keys; `OnEntry` passes marker entries, keeps the labels
+    extracted before a parse error and recomputes the fingerprint in every case. -/
+theorem gen_facts_params :
+    Gen.InternalParams.fieldsGuard = "len(p.ParameterNames) > 0" ∧
+    Gen.InternalParams.fieldsRange = "i, name := range p.ParameterNames" ∧
+    Gen.InternalParams.fieldsSkip = ["len(p.parameterTypedValues[i]) == 0"] ∧
+    Gen.InternalParams.fieldsTypeCases = ["string"] ∧
+    Gen.InternalParams.fieldsAssign = ["p.logfmtFields = make(map[string]string, len(p.ParameterNames))",
+      "p.logfmtFields[p.parameterTypedValues[i][0].(string)] = name"] ∧
+    Gen.InternalParams.aheadsRange = "i, path := range p.parameterTypedValues" ∧
+    Gen.InternalParams.aheadsBody = ["name := p.ParameterNames[i]", "pa = append(pa, pathAhead{label: name, path: path})"] ∧
+    Gen.InternalParams.filterAheadConds = ["len(a.path) == 0", "typeCmp[int](a.path[0], key) || typeCmp[string](a.path[0], key)"] ∧
+    Gen.InternalParams.setConds = ["len(a.path) == 0", "len(a.path) == 0"] ∧
+    Gen.InternalParams.setAssigns = ["(*j.labels)[a.label] = val", "(*j.labels)[a.label] = val"] ∧
+    Gen.InternalParams.processObjectConds = ["len(aheads) == 0", "len(_aheads) == 0"] ∧
+    Gen.InternalParams.processArrayConds = ["len(aheads) == 0", "len(_aheads) == 0"] ∧
+    Gen.InternalParams.processObjectCut = ["pathAhead{label: a.label, path: a.path[1:]}"] ∧
+    Gen.InternalParams.processArrayCut = ["pathAhead{label: a.label, path: a.path[1:]}"] ∧
+    Gen.InternalParams.handleLogfmtConds = ["p.fields != nil", "l != \"\""] ∧
+    Gen.InternalParams.handleLogfmtAssigns = ["l := p.fields[string(key)]", "(*p.labels)[l] = string(val)",
+      "(*p.labels)[sanitizeLabel(string(key))] = string(val)"] ∧
+    Gen.InternalParams.parserOnEntry = ["if entry.Err != nil { return nil }",
+      "labels, err := parser(entry.Message, &entry.Labels)", "if err == nil { entry.Labels = labels }",
+      "entry.Fingerprint = fingerprint(entry.Labels)", "return nil"] :=
+  ⟨rfl, rfl, rfl, rfl, rfl, rfl, rfl, rfl, rfl, rfl, rfl, rfl, rfl, rfl, rfl, rfl, rfl⟩
+
 /-! ## non-vacuity -/
 section examples
 def intOps : NumOps Int where
@@ -434,6 +802,43 @@ example : (run intOps (aggOps intOps 2000 ⟨0, 60, 2⟩ (lraFn intOps 60 .count
 example : getBreakpoint [.line, .jsonParams, .jsonNoParams, .labelFilter] false = 2 := by decide
 example : SeriesTableOk ⟨0, 1, 0, false, 1, false, "g", "s", "t", "t"⟩ ⟨[], [], []⟩ :=
   ⟨by simp, by simp, by simp⟩
+/-- the hypotheses of the composition theorem are satisfiable: a plan `| json | json p="a", p="b"` then
+    `count_over_time[60]` then `sum`, two lines whose keys come in different order — one series `p=2` and one `p=1`
+    (document order decides), fingerprints identify the label sets -/
+def exEnv : Env Int where
+  o := { reMatch := fun _ _ => false, jsonLabels := fun _ => [], isNum := fun _ => false, numCmp := fun _ _ _ => false, lower := id }
+  num := intOps
+  jsonDecode m := if m = [1] then .obj (.cons [98] (.raw [49]) (.cons [97] (.raw [50]) .nil))
+                  else .obj (.cons [97] (.raw [50]) (.cons [98] (.raw [49]) .nil))
+  logfmtDecode _ := []
+  tpl _ _ := none
+  hash b := b.foldl (fun h c => h * 31 + c.toUInt64) 7
+
+def exPlan (vec : Option (VecFn × Option ByWithout × Option (CmpOp × Int))) : Plan Int :=
+  ⟨[.parser .json, .parser (.jsonParams [([112], [.key [97]]), ([112], [.key [98]])])], some (.range .countOverTime, 60), none, none, vec⟩
+
+def exE1 : Entry Int := ⟨10, 7, [([120], [121])], [1], 0, none⟩
+def exE2 : Entry Int := ⟨20, 7, [([120], [121])], [2], 0, none⟩
+def exInput : List (Entry Int) := [exE1, exE2]
+
+example : MetricOk exEnv ⟨0, 120, 0, 3000, 2000⟩ (exPlan (some (.sum, none, none))) exInput := by
+  refine ⟨by decide +kernel, ?_, by decide +kernel, ?_⟩ <;> unfold FpFaithful <;> decide +kernel
+
+example : ((runPlan exEnv ⟨0, 120, 0, 3000, 2000⟩ (exPlan none) [[exE1], [], [exE2]]).flatten.map
+    (fun e => (e.labels.get [112], e.val))) = [([50], 1), ([49], 1)] := by decide +kernel
+
+/-- `JsonPathParamToTypedArray` as modelled (`Read.parsePath`): `x.z[0]`, `["k 1"]`, `a b` (the dot is optional), and
+    the errors: empty text, trailing dot, an unclosed bracket; `a.1` (a float to the Go scanner) is outside the fragment -/
+example : parsePath [120, 46, 122, 91, 48, 93] = .ok [.key [120], .key [122], .idx 0] ∧
+    parsePath [91, 34, 107, 32, 49, 34, 93] = .ok [.key [107, 32, 49]] ∧
+    parsePath [97, 32, 98] = .ok [.key [97], .key [98]] ∧
+    parsePath [] = .err ∧ parsePath [97, 46] = .err ∧ parsePath [97, 91] = .err ∧
+    parsePath [97, 46, 49] = .outside := by decide
+
+/-- the parameters as `Process` gets them: source order kept, an unparsable path fails the stage -/
+example : planParams [([112], [97]), ([113], [98, 91, 49, 93])] = some (some [([112], [.key [97]]), ([113], [.key [98], .idx 1])]) ∧
+    planParams [([112], [97]), ([113], [91])] = some none := by decide
+
 end examples
 
 end Qryn.C09
